@@ -1,7 +1,8 @@
 SPECIFICATION Spec
 CONSTANTS
-  Files <- MCFilesLen
+  FilesSrc <- MCFilesLen
   MConfs <- MCConfsLen
+  UseRegister = FALSE
   Refreshers = {"r1"}
   InvalidCountries = {"A1", "ZZZ"}
   InvalidContinents = {"ZZ"}
